@@ -1,6 +1,6 @@
 (** non-vacuity for C07: concrete texts meeting the hypotheses of the main theorems *)
 From Coq Require Import List NArith ZArith Bool.
-From ApiFu Require Import Base.Sexp Lex.Utf8 Lex.LexModel Lex.LexSpec Lex.LexRel Lex.LexProgress Lex.LexMode Lex.LexRefine Lex.LexErrors Lex.LexApi Lex.LexApiSpec.
+From ApiFu Require Import Base.Sexp Lex.Utf8 Lex.LexModel Lex.LexSpec Lex.LexRel Lex.LexProgress Lex.LexMode Lex.LexRefine Lex.LexErrors Lex.LexApi Lex.LexApiSpec Lex.LexPrefixSpec.
 Import ListNotations.
 
 (** BOM { a(x: "h\u00e9\n<e-acute>", y: <block string over four lines with CRLF, indentation and an
@@ -86,4 +86,19 @@ Example api_trace :
   [RBytes []; RPos 0 0; RBool true; RBytes [97%N]; RBytes [97%N]; RBool true; RBytes [34; 98; 34]%N; RBytes [98%N];
    RBool false; RBool false; RTok INVALID; RPos 1 6; RBytes []; RBytes []; RErrs []] /\
   end_pos api_src = (1, 6)%Z.
+Proof. vm_compute. repeat split. Qed.
+
+(** C07_lex_agrees_before_failure on bad_text = { a: QUOTE unterminated LF }: the grammar yields five
+    tokens and fails at the string; the first four ({ space a :) are agreed (the fifth, the space
+    before the quote, is the last token before the failure point), they cover 4 code points, the
+    scanner's tokens begin with them and its only error (at the line feed, code point 18) is not
+    before them *)
+Example bad_text_agreed :
+  let stoks := fst (spec_lex bad_cps) in
+  let ag := agreed bad_cps stoks true in
+  length ag = 4%nat /\ agreed_count ag = 4%nat /\
+  match lex true bad_text with
+  | Done ts es => firstn 4 ts = map token_of_stoken ag /\ es = [advance_pos (1, 1) 18 bad_cps]
+  | OutOfFuel => False
+  end.
 Proof. vm_compute. repeat split. Qed.
